@@ -13,6 +13,15 @@ EXTENDS Answer, Json, SequencesExt
 CONSTANTS MinSec, MaxSec, \* offers have MinSec..MaxSec sections
           Sims,          \* subset of BOOLEAN: video sections may carry rid/simulcast lines
           Port0s,        \* subset of BOOLEAN: sections may be offered rejected (port 0)
+          \* "line form" of the peer's text - what the parser sees for the SAME abstract description; it matters
+          \* for the round trip parse(print(d)) = d of parsed descriptions (session-level fields included):
+          SNames,        \* s= line: subset of {"dash" (s=-), "space" (s= , the RFC 4566 no-name form), "empty" (s=), "words" (s=x y)}
+          OUsers,        \* o= username: subset of {"dash", "name"}
+          SessOpts,      \* optional session-level lines: subset of {"none", "c", "bi", "all"} (c= / b= and i= / all three)
+          FlagAttrs,     \* subset of BOOLEAN: value-less attributes (a=ice-lite, a=extmap-allow-mixed, a=rtcp-rsize)
+          Trickies,      \* subset of BOOLEAN: values containing ':' '=' ';' (msid ssrc, IPv6 candidate, unknown attribute)
+          Blanks,        \* subset of BOOLEAN: leading blanks in values, trailing blanks on lines
+          Eols,          \* subset of {"crlf", "lf"}
           Extras,        \* subset of {"none","sip","browser"}: extra lines a real peer sends (bandwidth, ptime,
                          \* msid, ssrc-group, candidates ...) - they matter for the parse/print round trip
           Kinds,         \* subset of {"audio","video","application","image"}
@@ -29,8 +38,11 @@ CONSTANTS MinSec, MaxSec, \* offers have MinSec..MaxSec sections
           Seed,          \* seed of the model's own generator (VERIF_SEED): the sample is a function of it
           Deviations     \* {"AnswerLocalList"} switches the reference answerer to the pinned code's behaviour
 
-VARIABLES secs, n, desc, cfg, k, rnd
-vars == <<secs, n, desc, cfg, k, rnd>>
+VARIABLES secs, n, desc, cfg, form, k, rnd
+vars == <<secs, n, desc, cfg, form, k, rnd>>
+
+Forms == [sname : SNames, ouser : OUsers, sess : SessOpts, flags : FlagAttrs, tricky : Trickies, blanks : Blanks,
+          eol : Eols]
 
 (* A small deterministic generator inside the model (two LCGs, products stay below 2^31), so that the   *)
 (* sample depends only on Seed: TLC's RandomElement is not reproducible from -seed in model-checking mode. *)
@@ -100,13 +112,24 @@ Init ==
           /\ n \in MinSec..MaxSec
           /\ cfg \in Cfgs
           /\ desc \in DescOptions(n, cfg)
+          /\ form \in Forms
           /\ rnd = <<0, 0>>
      ELSE \* one pseudo-random behaviour per k
           /\ k \in 1..Samples
           /\ n = Pick(MinSec..MaxSec, R0(k))
           /\ cfg = Pick(Cfgs, NextR(R0(k)))
           /\ desc = Pick(DescOptions(n, cfg), NextR(NextR(R0(k))))
-          /\ rnd = NextR(NextR(NextR(R0(k))))
+          /\ LET f1 == NextR(NextR(NextR(R0(k))))
+                 f2 == NextR(f1)
+                 f3 == NextR(f2)
+                 f4 == NextR(f3)
+                 f5 == NextR(f4)
+                 f6 == NextR(f5)
+                 f7 == NextR(f6)
+             IN /\ form = [sname |-> Pick(SNames, f1), ouser |-> Pick(OUsers, f2), sess |-> Pick(SessOpts, f3),
+                           flags |-> Pick(FlagAttrs, f4), tricky |-> Pick(Trickies, f5), blanks |-> Pick(Blanks, f6),
+                           eol |-> Pick(Eols, f7)]
+                /\ rnd = NextR(f7)
 
 KindOptions(kind) ==
   IF kind \in RtpKinds
@@ -139,7 +162,7 @@ AddSection ==
                                 Pick(Dirs, r3), Pick(Muxes, r4), Pick(Sims, r5), P0(r6))
                    ELSE Section(kind, <<>>, <<>>, "sendrecv", FALSE, FALSE, P0(r6)))
              /\ rnd' = NextR(r6)
-  /\ UNCHANGED <<n, desc, cfg, k>>
+  /\ UNCHANGED <<n, desc, cfg, form, k>>
 
 Next == AddSection
 Spec == Init /\ [][Next]_vars
@@ -183,7 +206,7 @@ Previous ==
   IN [ secs |-> ps,
        bundle |-> SelectSeq(BundleOf(secs, desc.bundle), LAMBDA m : \E i \in DOMAIN ps : ps[i].mid = m) ]
 
-OfferRec == [offer |-> Offer, cfg |-> cfg, prev |-> Previous, extras |-> desc.extras]
+OfferRec == [offer |-> Offer, cfg |-> cfg, prev |-> Previous, extras |-> desc.extras, form |-> form]
 EmitOffer == Done => PrintT(<<"OFFER", ToJson(OfferRec)>>)
 
 -----------------------------------------------------------------------------
@@ -191,6 +214,9 @@ EmitOffer == Done => PrintT(<<"OFFER", ToJson(OfferRec)>>)
 AudioPtsSmall == {<<0>>, <<111, 0>>, <<9, 101>>, <<96, 8>>}
 AudioPtsFull  == {<<0>>, <<8>>, <<111>>, <<111, 0>>, <<0, 8, 101>>, <<9, 101>>, <<111, 9, 101>>, <<96, 8>>, <<96>>,
                   <<8, 0, 9, 111, 101>>}
+AudioPtsOne == {<<111, 0>>}
+VideoPtsOne == {<<96, 97>>}
+ExtNone == {<<>>}
 VideoPtsSmall == {<<96>>, <<96, 97>>, <<98, 99, 100>>}
 VideoPtsFull  == {<<96>>, <<96, 97>>, <<98>>, <<98, 99>>, <<100>>, <<98, 99, 100>>, <<96, 97, 98, 99>>,
                   <<100, 103>>, <<96, 97, 98, 99, 100, 103>>, <<97, 96, 103, 100>>}
